@@ -148,7 +148,9 @@ def reference_expr(c, derive, type_name, conv):
         extra = "".join(f", {c['names'][fi]} = {c['names'][fi]}.clone()" for fi in c["lit_named"])
         return f"format!({c['attr']}{extra})"
     if len(c["names"]) == 1:
-        return f'format!("{{:{ch}}}", {c["names"][0]})'
+        # the field is bound by reference; `&T` formats like `T` under every trait except Pointer
+        star = "*" if derive == "Pointer" else ""
+        return f'format!("{{:{ch}}}", {star}{c["names"][0]})'
     return f'String::from("{conv(type_name)}")'
 
 
